@@ -543,7 +543,7 @@ def kinds(tier):
     return ks
 
 
-REGISTERED = False
+REGISTERED = True
 LEVEL_TEXT = ("Recipes are built by the client code, serialised and replayed by "
               "the server code on thousands of generated graphs and cache "
               "states, and the walked set is compared with the intended one "
